@@ -11,6 +11,7 @@ import (
 	"runtime"
 	"runtime/debug"
 	"sort"
+	"time"
 
 	"verifharness/core"
 )
@@ -53,6 +54,19 @@ func main() {
 		c14ColdChild(os.Args[2])
 		return
 	}
+	// A check that does not end is neither a pass nor a finding: a generous watchdog turns it into an explicit
+	// INCONCLUSIVE with the goroutine dump of the harness (exit status 2). No verdict depends on it.
+	limit := 40 * time.Minute
+	if len(os.Args) > 2 && os.Args[2] == "thorough" {
+		limit = 4 * time.Hour
+	}
+	time.AfterFunc(limit, func() {
+		buf := make([]byte, 8<<20)
+		buf = buf[:runtime.Stack(buf, true)]
+		fmt.Printf("INCONCLUSIVE property=%s the check did not end within %v (process watchdog); goroutines of the harness follow on stderr\n", id, limit)
+		os.Stderr.Write(buf)
+		os.Exit(2)
+	})
 	c, ok := checks[id]
 	if !ok {
 		fmt.Printf("BROKEN-CHECK property=%s no such check\n", id)
